@@ -475,6 +475,23 @@ func expected(in c16In, named, numbered bool) []member {
 	return ms
 }
 
+// equal to the lower-case ASCII word after mapping A..Z to a..z, and nothing else
+func asciiFoldEq(s, lower string) bool {
+	if len(s) != len(lower) {
+		return false
+	}
+	for i := 0; i < len(s); i++ {
+		c := s[i]
+		if 'A' <= c && c <= 'Z' {
+			c += 'a' - 'A'
+		}
+		if c != lower[i] {
+			return false
+		}
+	}
+	return true
+}
+
 // what encoding/json makes of raw bytes inside a string: every invalid byte becomes U+FFFD
 func lossy(s string) string { return string([]rune(s)) }
 
@@ -526,7 +543,7 @@ func oracle(text string, exp []member) bool {
 				return false
 			}
 		case bool:
-			if !strings.EqualFold(e.text, strconv.FormatBool(x)) {
+			if !asciiFoldEq(e.text, strconv.FormatBool(x)) {
 				return false
 			}
 		default:
@@ -730,10 +747,13 @@ func classify(in c16In) ([]string, bool) {
 		} else if numericLooking.MatchString(t) {
 			tagset["text:numeric-looking-string"] = true
 		}
-		if strings.EqualFold(t, "true") || strings.EqualFold(t, "false") {
+		if asciiFoldEq(t, "true") || asciiFoldEq(t, "false") {
 			tagset["text:boolean"] = true
-			if strings.Contains(t, "ſ") {
-				tagset["text:boolean-long-s"] = true
+		} else if strings.EqualFold(t, "true") || strings.EqualFold(t, "false") {
+			// equal to the word only under Unicode folding (U+017F long s): must be written as a string
+			tagset["text:boolean-unicode-fold-only"] = true
+			if in.Via != "cli" {
+				tagset["kf:C16-bool-long-s"] = true
 			}
 		} else if l := strings.ToLower(t); strings.Contains(l, "tru") || strings.Contains(l, "fal") {
 			tagset["text:boolean-lookalike"] = true
@@ -837,7 +857,8 @@ var numericShapes = []string{"007", "1.", ".5", "-1", "1e5", "00.1", "-0", "+1",
 	"123.456", "1.2.3", "0123a", "0.5", "000", "0.00", "9007199254740993", "99999999999999999999999999999999", "1e", "1E5", "0x10",
 	"1_000", "1,5", ".", "-", "+", "1.e5", "0e0", "-0.0", "1 ", " 1", "1\n", "١٢", "１", "12345678901234567890.12345678901234567890", "0.1", "00.", "0.a", "5", "42"}
 
-var boolShapes = []string{"true", "false", "TRUE", "FALSE", "True", "False", "tRuE", "fAlSe", "falſe", "FALſE", "true ", " true",
+var boolShapes = []string{"fal\u017fe", "FAL\u017fE", "Fal\u017fe", "fAL\u017fe", "tr\u017fe", "\u017f", "fal\u017f", "false\u017f", "fal\u017f\u017fe",
+	"\u212aelvin", "tru\u212a", "fa\u212ase", "\uff54\uff52\uff55\uff45", "\uff46\uff41\uff4c\uff53\uff45", "fal\u0073\u0307e", "fa\u0142se", "tr\u00fce", "TR\u00dcE", "fal\u01a8e", "t\u0280ue", "true", "false", "TRUE", "FALSE", "True", "False", "tRuE", "fAlSe", "falſe", "FALſE", "true ", " true",
 	"tru", "truee", "ſ", "fal\xc5e", "falſ", "fal\xc5\xbf", "fal\xc5\xbfe\xff", "Kelvin", "tʀue", "yes", "null", "nil", "TRUE\x00", "trüe", "FALSΕ"}
 
 var spice = []string{"\"", "\\", "/", "\\\"", "\\u0041", "\\n", "\x00", "\x01", "\x07", "\x08", "\t", "\n", "\x0b", "\x0c", "\r", "\x0e", "\x1b", "\x1f", " ", "\x7f",
@@ -1372,7 +1393,7 @@ func main() {
 	Main(&Prop{
 		Name:   "C16",
 		Header: "From Coq Require Import List NArith ZArith String.\nFrom RareV Require Import Corr.C16Case.\nImport ListNotations.\nOpen Scope Z_scope. Open Scope string_scope.\n",
-		Rule: "fixed part: every byte value 0..255 alone in a named group and embedded in a numbered group; every numeric shape (007, 1., .5, -1, 1e5, 00.1, -0, +1, ...) and boolean shape (case variants, U+017F long s, look-alikes) alone under 0/1/2 names; 0..4 names over the same groups. " +
+		Rule: "fixed part: every byte value 0..255 alone in a named group and embedded in a numbered group; every numeric shape (007, 1., .5, -1, 1e5, 00.1, -0, +1, ...) and boolean shape (ASCII case variants; near-misses that are equal only under Unicode folding or not at all: U+017F long s, Kelvin sign U+212A, full-width letters, combining marks, look-alikes) alone under 0/1/2 names; 0..4 names over the same groups. " +
 			"pipeline part (8 fixed-shape scenarios, then about 1/6 of the seeded cases): 2..4 sources whose line numbers all start at 1 (one line each / one-line batches interleaved round robin / only first lines match / free; lines repeated across sources) are pushed through ONE extractor.New with a real regexp matcher and a JSON view as the expression, with Workers 1 and 2..4, twice each, either as scripted InputBatches in a generated interleaving or as temp files under $VERIF_WORK read by batchers.OpenFilesToChan; every emitted match is grouped by its line and each distinct matching line is one case: all texts ever rendered for that line (whatever was rendered before it) must be the one text of its own captures. " +
 			"stateful part (8 sequence + 3 concurrent scenarios in quick, 60 + 12 in thorough; one case per distinct line): {.}, {#}, {.#} and {json <view> <member>} queries are each compiled ONCE, optimised and unoptimised, and evaluated (inside an extractor.IgnoreSet probe, i.e. on the workers' real expression contexts, besides the extractor's own shared key builder) over 5..9 different matches of one scripted matcher — an all-empty probe-like context first, different group counts, unmatched groups, lines sharing the text of group 0, texts needing escapes followed by plain ones, adjacent repeats — either as one sequence with Workers 1 (every evaluation also compared with a fresh compile) or from 4..8 workers at once behind a start barrier, 2500 evaluations of every expression per worker (every 16th compared with a fresh compile); all texts ever produced for a line must be the one text of that line alone, and every query must give the member's text. " +
 			"seeded part: 1/6 `rare expression -r -n -d ... -k k=v` run in-process through cmd.GetSupportedCommands (0..4 data, 0..4 keys, the -k order rotated between evaluations; no NUL, no comma, no '=' in keys, valid UTF-8 only, no surrounding white space: what the flag library passes on unchanged); of the rest 60% scripted matcher (0..5 groups with nested/overlapping/empty/unmatched spans, 0..4 names incl. digits-only, duplicate group, out-of-range index, names needing escapes), 20% real regexp ((?P<name>...) fields separated by 0x1e, optional groups), 20% real dissect (arbitrary token names). " +
